@@ -32,7 +32,7 @@ def main():
     nfix = sum(1 for l in open(os.path.join(V, "seeded", "INDEX.fixes.md")) if l.startswith("| revert")) if os.path.exists(os.path.join(V, "seeded", "INDEX.fixes.md")) else 0
     text = """## 7. Seeded changes and which checks catch them
 
-`/verif/seeded/<id>/` holds **%d changes that break a property** (`M-*`), written by independent sub-agents over eight
+`/verif/seeded/<id>/` holds **%d changes that break a property** (`M-*`), written by independent sub-agents over nine
 rounds (each given only one property's text and its own scratch worktree of /repo, nothing from /verif; from round 2 on
 additionally one sentence saying where to look or what had already been done, so that it would do something different),
 and **%d behaviour-preserving refactors** (`E-*`, five rounds). Each `M-*` was **confirmed by me** with
@@ -78,7 +78,7 @@ floors fail the check when instances vanish, and references state comparisons on
 
 ---------------------------------------------------------------------------------------------------------------------
 
-""" % (n, len(e), nfix, len(reported), n, len(own), "M-C04-5 and M-C10-4 (both inside Knuth's division, the one part of the multi-limb arithmetic that is not decided, see 2.5b) and M-C17-1 (its property, C17, is not applicable)" if not_rep == ["M-C04-5", "M-C10-4", "M-C17-1"] else (", ".join(not_rep) or "none"), len(missed_first), "\n".join(m), "\n".join(e))
+""" % (n, len(e), nfix, len(reported), n, len(own), "M-C02-6, M-C04-5 and M-C10-4 (all three inside Knuth's division, the one part of the multi-limb arithmetic that is not decided, see 2.5b) and M-C17-1 (its property, C17, is not applicable)" if not_rep == ["M-C02-6", "M-C04-5", "M-C10-4", "M-C17-1"] else (", ".join(not_rep) or "none"), len(missed_first), "\n".join(m), "\n".join(e))
     p = os.path.join(V, "DESIGN.md")
     s = open(p).read()
     a, b = s.index("## 7. Seeded changes"), s.index("## 8. Layout")
